@@ -1,5 +1,11 @@
 // extract re-reads constants, tables and comparison operators from /repo's Go sources and
 // prints a Lean file (Generated/<Name>.lean). usage: extract <FactsName> <repo>
+//
+// Facts: ScaleFacts (C10, benchunit/scale.go), TidyFacts (C04, benchunit/tidy.go), UTestFacts (C11,
+// internal/stats/utest.go), DistFacts (C12, internal/stats numeric constants), NothingFacts (C13,
+// benchmath/anone.go + sample.go), CmdFacts (C14, cmd/benchstat/main.go), LegacyFacts (C17,
+// benchstat/{data,table,scaler}.go), SeriesFacts (C18, benchseries/benchseries.go), DbFacts
+// (C19/C20, storage/db/db.go). Conventions of the output: /verif/notes/FACTS.md.
 package main
 
 import (
@@ -15,6 +21,7 @@ import (
 	"regexp"
 	"strconv"
 	"strings"
+	"time"
 )
 
 var fset = token.NewFileSet()
@@ -1958,6 +1965,467 @@ func distFacts(repo string) {
 	footer("DistFacts", inv, bcf, pct, iqr, ginv, bis)
 }
 
+// ---------------------------------------------------------------- C14: cmd/benchstat/main.go flag defaults
+
+// defaultAlphaLit resolves benchmath.DefaultThresholds.CompareAlpha.
+func defaultAlphaLit(repo string) num {
+	sf := parseFile(repo, "benchmath/sample.go")
+	dt, ok := varInit(sf, "DefaultThresholds").(*ast.CompositeLit)
+	if !ok {
+		die("DefaultThresholds is not a composite literal")
+	}
+	for _, el := range dt.Elts {
+		if kv, ok := el.(*ast.KeyValueExpr); ok && isIdent(kv.Key, "CompareAlpha") {
+			return mustNum(kv.Value, "CompareAlpha")
+		}
+	}
+	die("DefaultThresholds.CompareAlpha not found")
+	return num{}
+}
+
+// flagText is how package flag prints a float64 default (%v).
+func flagText(n num) string {
+	v, err := strconv.ParseFloat(strings.ReplaceAll(n.text, "_", ""), 64)
+	if err != nil {
+		die("float literal %s: %v", n.text, err)
+	}
+	return strconv.FormatFloat(v, 'g', -1, 64)
+}
+
+func cmdFacts(repo string) {
+	f := parseFile(repo, "cmd/benchstat/main.go")
+	bs := funcDecl(f, "benchstat")
+	// thresholds := benchmath.DefaultThresholds
+	thresholdsIsDefault := false
+	type fl struct{ name, kind, def, text string }
+	var flags []fl
+	var numForms []string
+	ast.Inspect(bs.Body, func(n ast.Node) bool {
+		if as, ok := n.(*ast.AssignStmt); ok && len(as.Lhs) == 1 && isIdent(as.Lhs[0], "thresholds") && src(as.Rhs[0]) == "benchmath.DefaultThresholds" {
+			thresholdsIsDefault = true
+		}
+		fun, args, ok := callOfNode(n)
+		if !ok || !strings.HasPrefix(fun, "flags.") {
+			return true
+		}
+		switch strings.TrimPrefix(fun, "flags.") {
+		case "String":
+			name, ok1 := strLit(args[0])
+			def, ok2 := strLit(args[1])
+			if !ok1 || !ok2 {
+				die("flag %s: non-literal name or default", src(args[0]))
+			}
+			flags = append(flags, fl{name, "string", def, def})
+		case "Float64":
+			name, ok1 := strLit(args[0])
+			if !ok1 {
+				die("flag %s: non-literal name", src(args[0]))
+			}
+			v := mustNum(args[1], "flag -"+name)
+			flags = append(flags, fl{name, "float64", flagText(v), v.text})
+			numForms = append(numForms, fmt.Sprintf("(%s, %s)", leanStr(name), v.lean()))
+		case "Float64Var":
+			name, ok1 := strLit(args[1])
+			if !ok1 {
+				die("flag %s: non-literal name", src(args[1]))
+			}
+			if src(args[2]) != "thresholds.CompareAlpha" || src(args[0]) != "&thresholds.CompareAlpha" {
+				die("flag -%s: unexpected default %s", name, src(args[2]))
+			}
+			if !thresholdsIsDefault {
+				die("flag -%s: thresholds is not benchmath.DefaultThresholds", name)
+			}
+			v := defaultAlphaLit(repo)
+			flags = append(flags, fl{name, "float64", flagText(v), v.text})
+			numForms = append(numForms, fmt.Sprintf("(%s, %s)", leanStr(name), v.lean()))
+		}
+		return true
+	})
+	if len(flags) == 0 {
+		die("benchstat: no flags found")
+	}
+	header("CmdFacts", "cmd/benchstat/main.go", "benchmath/sample.go")
+	var all, names []string
+	for _, x := range flags {
+		all = append(all, fmt.Sprintf("(%s, %s, %s, %s)", leanStr(x.name), leanStr(x.kind), leanStr(x.def), leanStr(x.text)))
+		names = append(names, x.name)
+	}
+	pf("/-- every flag of the benchstat command in source order: (name, kind, default as `benchstat -h` prints it, source text of the default) -/\n")
+	pf("def flags : List (String × String × String × String) := %s\n", joinS(all))
+	pf("def flagNames : List String := %s\n", leanStrList(names))
+	for _, x := range flags {
+		pf("def %sDefault : String := %s\n", x.name, leanStr(x.def))
+	}
+	pf("/-- float defaults as (negative, mantissa, decimal exponent) -/\ndef floatDefaults : List (String × (Bool × Nat × Int)) := %s\n", joinS(numForms))
+	codes := map[string]int{"thresholds.CompareAlpha": 0, "*flagConfidence": 1}
+	has := func(sub string) func(string) bool { return func(c string) bool { return strings.Contains(c, sub) } }
+	pf("/-- operand codes: %s -/\ndef rangeCodes : Unit := ()\n", codeDoc(codes))
+	emitCond("alphaRangeCond", "-alpha rejected", mustIf(bs.Body, "alpha range", has("thresholds.CompareAlpha <")).Cond, codes)
+	emitCond("confidenceRangeCond", "-confidence rejected", mustIf(bs.Body, "confidence range", has("*flagConfidence <")).Cond, codes)
+	var formats []string
+	ast.Inspect(bs.Body, func(n ast.Node) bool {
+		if sw, ok := n.(*ast.SwitchStmt); ok && sw.Tag != nil && src(sw.Tag) == "*flagFormat" {
+			for _, c := range sw.Body.List {
+				for _, l := range c.(*ast.CaseClause).List {
+					if s, ok := strLit(l); ok {
+						formats = append(formats, s)
+					}
+				}
+			}
+		}
+		return true
+	})
+	pf("/-- accepted values of -format -/\ndef formats : List String := %s\n", leanStrList(formats))
+	footer("CmdFacts", bs)
+}
+
+// ---------------------------------------------------------------- C18: benchseries/benchseries.go
+
+// layoutTokens splits a Go time layout into (code, a, b):
+// 0 literal byte a; 1 "2006"; 2 "01"; 3 "02"; 4 "15"; 5 "04"; 6 "05";
+// 7 fraction with trailing zeros removed (separator byte a, b nines); 8 fixed fraction (separator a, b zeros);
+// 9 "-07:00"; 10 "Z07:00". Any other reference-time element is an error.
+func layoutTokens(layout, what string) string {
+	var out []string
+	add := func(c, a, b int) { out = append(out, fmt.Sprintf("(%d, %d, %d)", c, a, b)) }
+	for i := 0; i < len(layout); {
+		rest := layout[i:]
+		switch {
+		case strings.HasPrefix(rest, "2006"):
+			add(1, 0, 0)
+			i += 4
+		case strings.HasPrefix(rest, "Z07:00"):
+			add(10, 0, 0)
+			i += 6
+		case strings.HasPrefix(rest, "-07:00"):
+			add(9, 0, 0)
+			i += 6
+		case strings.HasPrefix(rest, "01"):
+			add(2, 0, 0)
+			i += 2
+		case strings.HasPrefix(rest, "02"):
+			add(3, 0, 0)
+			i += 2
+		case strings.HasPrefix(rest, "15"):
+			add(4, 0, 0)
+			i += 2
+		case strings.HasPrefix(rest, "04"):
+			add(5, 0, 0)
+			i += 2
+		case strings.HasPrefix(rest, "05"):
+			add(6, 0, 0)
+			i += 2
+		case (rest[0] == '.' || rest[0] == ',') && len(rest) > 1 && (rest[1] == '9' || rest[1] == '0'):
+			j := 1
+			for j < len(rest) && rest[j] == rest[1] {
+				j++
+			}
+			if j < len(rest) && rest[j] >= '0' && rest[j] <= '9' {
+				die("%s: layout %q: fraction followed by a digit", what, layout)
+			}
+			if rest[1] == '9' {
+				add(7, int(rest[0]), j-1)
+			} else {
+				add(8, int(rest[0]), j-1)
+			}
+			i += j
+		default:
+			c := rest[0]
+			if c >= '0' && c <= '9' || strings.ContainsRune("JMPZ_", rune(c)) {
+				die("%s: layout %q: unsupported element at %q", what, layout, rest)
+			}
+			add(0, int(c), 0)
+			i++
+		}
+	}
+	return joinS(out)
+}
+
+var classRe = regexp.MustCompile(`^(?:\[(.)-(.)\]|([A-Za-z0-9:+-]))(?:\{(\d+)\})?`)
+
+// simpleRegex parses `^([c-d]{n}|c)*$` into (lo byte, hi byte, count) triples.
+func simpleRegex(re, what string) string {
+	if !strings.HasPrefix(re, "^") || !strings.HasSuffix(re, "$") {
+		die("%s: regexp %q is not anchored at both ends", what, re)
+	}
+	body := re[1 : len(re)-1]
+	var out []string
+	for body != "" {
+		m := classRe.FindStringSubmatch(body)
+		if m == nil {
+			die("%s: regexp %q: unsupported syntax at %q", what, re, body)
+		}
+		lo, hi := 0, 0
+		if m[1] != "" {
+			lo, hi = int(m[1][0]), int(m[2][0])
+		} else {
+			lo, hi = int(m[3][0]), int(m[3][0])
+		}
+		n := 1
+		if m[4] != "" {
+			n, _ = strconv.Atoi(m[4])
+		}
+		out = append(out, fmt.Sprintf("(%d, %d, %d)", lo, hi, n))
+		body = body[len(m[0]):]
+	}
+	return joinS(out)
+}
+
+func seriesFacts(repo string) {
+	f := parseFile(repo, "benchseries/benchseries.go")
+	nd := funcDecl(f, "NormalizeDateString")
+	pn := funcDecl(f, "ParseNormalizedDateString")
+	hs := methodDecl(f, "Cell", "hash")
+	stdLayouts := map[string]string{"time.RFC3339Nano": time.RFC3339Nano, "time.RFC3339": time.RFC3339}
+
+	header("SeriesFacts", "benchseries/benchseries.go")
+	// rot and the hash round
+	rot := mustNum(varInit(f, "rot"), "rot")
+	pf("def rot : Nat := %s\n", rot.natVal("rot"))
+	var lines []string
+	ast.Inspect(hs.Body, func(n ast.Node) bool {
+		if rs, ok := n.(*ast.RangeStmt); ok {
+			for _, st := range rs.Body.List {
+				lines = append(lines, strings.Join(strings.Fields(src(st)), " "))
+			}
+		}
+		return true
+	})
+	pf("/-- the statements of one round of Cell.hash -/\ndef hashRound : List String := %s\n", leanStrList(lines))
+	seedExpr := ""
+	ast.Inspect(f, func(n ast.Node) bool {
+		if fun, args, ok := callOfNode(n); ok && fun == "rand.NewSource" && len(args) == 1 && strings.Contains(src(args[0]), "hash()") {
+			seedExpr = src(args[0])
+		}
+		return true
+	})
+	if seedExpr == "" {
+		die("rand.NewSource(… hash() …) not found")
+	}
+	pf("def seedExpr : String := %s\n", leanStr(seedExpr))
+
+	// compact form
+	reCall, ok := varInit(f, "noPuncDate").(*ast.CallExpr)
+	if !ok || src(reCall.Fun) != "regexp.MustCompile" {
+		die("noPuncDate is not regexp.MustCompile(…)")
+	}
+	re, ok := strLit(reCall.Args[0])
+	if !ok {
+		die("noPuncDate pattern is not a literal")
+	}
+	pf("def compactRegex : String := %s\n", leanStr(re))
+	pf("/-- the anchored pattern as (lowest byte, highest byte, repetitions) -/\ndef compactForm : List (Nat × Nat × Nat) := %s\n", simpleRegex(re, "noPuncDate"))
+	cif := mustIf(nd.Body, "compact form", func(c string) bool { return strings.Contains(c, "noPuncDate.MatchString") })
+	as, ok := cif.Body.List[0].(*ast.AssignStmt)
+	if !ok || !isIdent(as.Lhs[0], "in") {
+		die("NormalizeDateString: respelling assignment")
+	}
+	var pieces []string
+	var walk func(e ast.Expr)
+	walk = func(e ast.Expr) {
+		e = unparen(e)
+		if be, ok := e.(*ast.BinaryExpr); ok && be.Op == token.ADD {
+			walk(be.X)
+			walk(be.Y)
+			return
+		}
+		if s, ok := strLit(e); ok {
+			pieces = append(pieces, fmt.Sprintf("(1, 0, 0, %s)", bytesOf(s)))
+			return
+		}
+		if sl, ok := e.(*ast.SliceExpr); ok && isIdent(sl.X, "in") && sl.Low != nil && sl.High != nil {
+			lo, hi := mustNum(sl.Low, "slice"), mustNum(sl.High, "slice")
+			pieces = append(pieces, fmt.Sprintf("(0, %s, %s, [])", lo.natVal("slice"), hi.natVal("slice")))
+			return
+		}
+		die("NormalizeDateString: respelling piece %s", src(e))
+	}
+	walk(as.Rhs[0])
+	pf("/-- the respelling of the compact form: (0, lo, hi, []) = in[lo:hi], (1, 0, 0, bytes) = a literal; source `%s` -/\n", src(as.Rhs[0]))
+	pf("def respell : List (Nat × Nat × Nat × List Nat) := %s\n", joinS(pieces))
+
+	// layouts
+	inLayout, outLayout, utc := "", "", false
+	ast.Inspect(nd.Body, func(n ast.Node) bool {
+		fun, args, ok := callOfNode(n)
+		if !ok {
+			return true
+		}
+		if fun == "time.Parse" && len(args) == 2 {
+			inLayout = src(args[0])
+		}
+		if strings.HasSuffix(fun, ".Format") && len(args) == 1 {
+			outLayout = src(args[0])
+			utc = strings.Contains(fun, ".UTC()")
+		}
+		return true
+	})
+	resolve := func(name string) string {
+		if v, ok := stdLayouts[name]; ok {
+			return v
+		}
+		if v, ok := strLit(varInitOpt(f, name)); ok {
+			return v
+		}
+		die("layout %s cannot be resolved", name)
+		return ""
+	}
+	if inLayout == "" || outLayout == "" {
+		die("NormalizeDateString: time.Parse / Format not found")
+	}
+	pf("def inputLayoutName : String := %s\ndef inputLayout : String := %s\n", leanStr(inLayout), leanStr(resolve(inLayout)))
+	pf("/-- layout elements: 0 literal byte a; 1 \"2006\"; 2 \"01\"; 3 \"02\"; 4 \"15\"; 5 \"04\"; 6 \"05\"; 7 fraction, trailing zeros removed (separator a, b nines); 8 fixed fraction; 9 \"-07:00\"; 10 \"Z07:00\" -/\n")
+	pf("def inputTokens : List (Nat × Nat × Nat) := %s\n", layoutTokens(resolve(inLayout), "input layout"))
+	pf("def outputLayoutName : String := %s\ndef outputLayout : String := %s\n", leanStr(outLayout), leanStr(resolve(outLayout)))
+	pf("def outputTokens : List (Nat × Nat × Nat) := %s\n", layoutTokens(resolve(outLayout), "output layout"))
+	pf("def outputInUTC : Bool := %v\n", utc)
+	rb := ""
+	ast.Inspect(pn.Body, func(n ast.Node) bool {
+		if fun, args, ok := callOfNode(n); ok && fun == "time.Parse" {
+			rb = src(args[0])
+		}
+		return true
+	})
+	pf("/-- the layout ParseNormalizedDateString reads back -/\ndef readBackLayoutName : String := %s\n", leanStr(rb))
+	footer("SeriesFacts", nd, pn, hs)
+}
+
+// varInitOpt is varInit without the fatal error.
+func varInitOpt(f *ast.File, name string) ast.Expr {
+	for _, d := range f.Decls {
+		if gd, ok := d.(*ast.GenDecl); ok {
+			for _, sp := range gd.Specs {
+				if vs, ok := sp.(*ast.ValueSpec); ok {
+					for i, n := range vs.Names {
+						if n.Name == name && i < len(vs.Values) {
+							return vs.Values[i]
+						}
+					}
+				}
+			}
+		}
+	}
+	return &ast.BadExpr{}
+}
+
+// ---------------------------------------------------------------- C19/C20: storage/db/db.go
+
+var verbRe = regexp.MustCompile(`^%[sdvq]`)
+
+// sprintfTokens: (0, arg index, 0) = %s, (1, arg index, 0) = %d, (2, byte, 0) = literal byte.
+func sprintfTokens(format, what string) string {
+	var out []string
+	arg := 0
+	for i := 0; i < len(format); {
+		if format[i] == '%' {
+			v := verbRe.FindString(format[i:])
+			switch v {
+			case "%s":
+				out = append(out, fmt.Sprintf("(0, %d, 0)", arg))
+			case "%d":
+				out = append(out, fmt.Sprintf("(1, %d, 0)", arg))
+			default:
+				die("%s: unsupported verb in %q", what, format)
+			}
+			arg++
+			i += 2
+			continue
+		}
+		out = append(out, fmt.Sprintf("(2, %d, 0)", format[i]))
+		i++
+	}
+	return joinS(out)
+}
+
+func dbFacts(repo string) {
+	f := parseFile(repo, "storage/db/db.go")
+	il := methodDecl(f, "Upload", "insertLabel")
+	fl := methodDecl(f, "Upload", "flush")
+	nu := methodDecl(f, "DB", "NewUpload")
+	ir := methodDecl(f, "Upload", "InsertRecord")
+	header("DbFacts", "storage/db/db.go")
+
+	codes := map[string]int{"len(u.insertLabelArgs)": 0, "threshold": 1}
+	fi := mustIf(il.Body, "insertLabel flush", func(c string) bool { return strings.Contains(c, "len(u.insertLabelArgs)") })
+	be, ok := unparen(fi.Cond).(*ast.BinaryExpr)
+	if !ok || src(be.X) != "len(u.insertLabelArgs)" || opN(be.Op) > 5 {
+		die("insertLabel: flush condition %s", src(fi.Cond))
+	}
+	thr := mustNum(be.Y, "flush threshold")
+	pf("/-- `if %s { u.flush() }`: threshold and comparison (operator codes 0:>= 1:> 2:<= 3:< 4:== 5:!=); condition over operand codes %s -/\n", src(fi.Cond), codeDoc(codes))
+	pf("def flushThreshold : Nat := %s\ndef flushOp : Nat := %d\n", thr.natVal("flush threshold"), opN(be.Op))
+	pf("def flushCond : List (List (Bool × Nat × Nat × Nat)) := [[(false, 0, %d, 1)]]\n", opN(be.Op))
+	callsFlush := false
+	ast.Inspect(fi.Body, func(n ast.Node) bool {
+		if fun, _, ok := callOfNode(n); ok && fun == "u.flush" {
+			callsFlush = true
+		}
+		return true
+	})
+	pf("def flushCalled : Bool := %v\n", callsFlush)
+	// arguments appended per label / per record
+	perRow := func(fd *ast.FuncDecl, field string) int {
+		n := -1
+		ast.Inspect(fd.Body, func(nd ast.Node) bool {
+			if fun, args, ok := callOfNode(nd); ok && fun == "append" && len(args) > 1 && src(args[0]) == field {
+				n = len(args) - 1
+			}
+			return true
+		})
+		if n < 0 {
+			die("append(%s, …) not found", field)
+		}
+		return n
+	}
+	pf("/-- values appended to the queue per label / per record -/\ndef labelArgsPerRow : Nat := %d\ndef recordArgsPerRow : Nat := %d\n",
+		perRow(il, "u.insertLabelArgs"), perRow(ir, "u.insertRecordArgs"))
+	var ins []string
+	ast.Inspect(fl.Body, func(nd ast.Node) bool {
+		if fun, args, ok := callOfNode(nd); ok && fun == "insertMultiple" && len(args) == 4 {
+			q, _ := strLit(args[1])
+			ins = append(ins, fmt.Sprintf("(%s, %s, %s)", leanStr(q), mustNum(args[2], "insertMultiple").natVal("argsPerRow"), leanStr(src(args[3]))))
+		}
+		return true
+	})
+	pf("/-- the INSERT statements of flush: (SQL prefix, arguments per row, queue) -/\ndef flushInserts : List (String × Nat × String) := %s\n", joinS(ins))
+
+	// upload id
+	idFmt, idArgs := "", []string{}
+	incr := false
+	parseOff := ""
+	ast.Inspect(nu.Body, func(nd ast.Node) bool {
+		switch x := nd.(type) {
+		case *ast.AssignStmt:
+			if len(x.Lhs) == 1 && isIdent(x.Lhs[0], "id") {
+				if fun, args, ok := callOf(x.Rhs[0]); ok && fun == "fmt.Sprintf" {
+					idFmt, _ = strLit(args[0])
+					for _, a := range args[1:] {
+						idArgs = append(idArgs, src(a))
+					}
+				}
+			}
+		case *ast.IncDecStmt:
+			if isIdent(x.X, "num") && x.Tok == token.INC {
+				incr = true
+			}
+		case *ast.CallExpr:
+			if src(x.Fun) == "strconv.Atoi" && len(x.Args) == 1 {
+				parseOff = src(x.Args[0])
+			}
+		}
+		return true
+	})
+	if idFmt == "" {
+		die("NewUpload: id format not found")
+	}
+	pf("def idFormat : String := %s\ndef idArgs : List String := %s\n", leanStr(idFmt), leanStrList(idArgs))
+	pf("/-- the format as elements: (0, i, 0) = %%s of argument i, (1, i, 0) = %%d of argument i, (2, b, 0) = the byte b -/\n")
+	pf("def idTokens : List (Nat × Nat × Nat) := %s\n", sprintfTokens(idFmt, "upload id"))
+	pf("/-- `num++` before formatting; the previous sequence number is read back from `%s` -/\n", parseOff)
+	pf("def idIncrements : Bool := %v\ndef idReadBack : String := %s\n", incr, leanStr(parseOff))
+	footer("DbFacts", il, fl, nu, ir)
+}
+
 func main() {
 	if len(os.Args) != 3 {
 		fmt.Fprintln(os.Stderr, "usage: extract <FactsName> <repo>")
@@ -1976,6 +2444,12 @@ func main() {
 		nothingFacts(os.Args[2])
 	case "DistFacts":
 		distFacts(os.Args[2])
+	case "CmdFacts":
+		cmdFacts(os.Args[2])
+	case "SeriesFacts":
+		seriesFacts(os.Args[2])
+	case "DbFacts":
+		dbFacts(os.Args[2])
 	default:
 		fmt.Fprintln(os.Stderr, "unknown facts", os.Args[1])
 		os.Exit(2)
